@@ -212,6 +212,9 @@ func funcKey(fn *ssa.Function) string {
 
 func (e *Engine) callSSA(caller *frame, th *Thread, fn *ssa.Function, args []Value, env []Value) Value {
 	fr := &frame{e: e, th: th, caller: caller, fn: fn}
+	if DebugForks {
+		e.lastFn = fn.String()
+	}
 	if fn.Parent() == nil {
 		name := fn.Name()
 		if strings.HasPrefix(name, "verif_") {
